@@ -347,6 +347,8 @@ Proof.
   - cbn [nofZ nzero FlOps]. unfold frnd. apply round_0. auto with typeclass_instances.
   - cbn [nofZ n_one FlOps]. apply rnd_id, fl_fmt_1.
   - unfold ntwo. cbn [nofDec nadd n_one FlOps]. unfold fl_add. f_equal. simpl. lra.
+  - intros a b. cbn [nmul nneg FlOps]. unfold fl_mul, frnd. replace (- a * b) with (- (a * b)) by ring.
+    apply round_NE_opp.
 Qed.
 
 End Fmt.
